@@ -380,6 +380,12 @@ def check_newbuf(ctx, it, syn, line, out, ret, chunks):
         got = "ret=%s buf=%s errno=%s" % (d.get("ret"), d.get("buf"), d.get("errno"))
         if want != got:
             run.violation("oracle:new_buffer_exact(%s)" % syn, dict(rep, what="expected [%s] got [%s]" % (want[:300], got[:300])))
+        # the growth rule (theorem C07_new_buffer_capacity): the least 16 * 2^j strictly above the total
+        cap = 16
+        while cap <= len(data):
+            cap *= 2
+        if d.get("cap") != str(cap):
+            run.violation("correspondence:NewBufCap(%s)" % syn, dict(rep, total=len(data), what="the allocation behind the returned buffer has %s octets; the model of dynamic_encoder_cb (least 16*2^j strictly above the total %d) says %d" % (d.get("cap"), len(data), cap)), no_input=True)
     else:
         if d.get("ret") != "-1" or d.get("errno") in ("E0", "EIO", None):
             run.violation("oracle:new_buffer_exact(%s)" % syn, dict(rep, what="failing encoder: expected ret=-1 with an errno, got [%s]" % out[:200]))
@@ -553,21 +559,26 @@ def model_batch(ctx, lines):
     return mo
 
 
-def run_mods(ctx, batches, name):
-    """batches: [(module, lines)] -> [output lines]; the drivers of different modules run side by side;
-    a driver that dies is a violation (every encoder call of the C07 commands runs in a child of its own)"""
+def run_mods(ctx, batches, name, piece=120):
+    """batches: [(module, lines)] -> [output lines]; the drivers run side by side, a module's lines in pieces
+    (several processes of the same driver); a driver that dies is a violation (every encoder call of the
+    C07 commands runs in a child of its own)"""
     run = ctx.run
-    todo = [(m, ls) for m, ls in batches if ls]
-    res = par_run([(m["exe"], ls) for m, ls in todo], os.path.join(scratch(), "c07c"), env=SAN_ENV, width=8)
-    outs = {}
-    for (m, ls), (rc, out, err) in zip(todo, res):
+    jobs, where = [], []
+    for bi, (m, ls) in enumerate(batches):
+        for i in range(0, len(ls), piece):
+            jobs.append((m["exe"], ls[i:i + piece]))
+            where.append((bi, i))
+    res = par_run(jobs, os.path.join(scratch(), "c07c"), env=SAN_ENV, width=8)
+    outs = [[None] * len(ls) for _m, ls in batches]
+    for (exe, ls), (bi, i), (rc, out, err) in zip(jobs, where, res):
         if rc != 0 or len(out) != len(ls):
             bad = ls[len(out)] if len(out) < len(ls) else None
             run.violation("crash:" + name, {"what": "moddrv died (rc=%s): sanitizer report, abort or signal" % rc,
-                                            "module": m["text"], "command_line": (bad or "")[:4000], "stderr_tail": err[-2500:]})
+                                            "module": batches[bi][0]["text"], "command_line": (bad or "")[:4000], "stderr_tail": err[-2500:]})
             out = out + ["CRASH"] * (len(ls) - len(out))
-        outs[m["name"]] = out
-    return [outs.get(m["name"], []) if ls else [] for m, ls in batches]
+        outs[bi][i:i + len(ls)] = out
+    return outs
 
 
 # ---------------------------------------------------------------- main
@@ -576,6 +587,9 @@ def main(tier):
     run = Run("C07", tier)
     rng = Rng(run.seed)
     quick = tier == "quick"
+    global ALL_K, ALL_SIZES
+    if not quick:
+        ALL_K, ALL_SIZES = 1500, 3000
     ok, out = coq_build()
     nthm, ndis, axioms, names, plog = obligations("C07") if ok else (0, 0, set(), [], out)
     gate = grep_gate()
@@ -901,6 +915,11 @@ def main(tier):
         run_model(ctx, lines, expect, lambda l: "correspondence:XerEnc(%s,%s)" % (l.split()[0], "cxer" if l.split()[1] == "1" else "xer"),
                   "the modelled XER encoder (Rt/XerEnc.v: ASN__CALLBACK accounting, ASN__TEXT_INDENT one invocation per level) run through the modelled wrappers differs from the C: chunk list, bytes or result")
     dbg('model done')
+    if os.environ.get('VERIF_DEBUG'):
+        kinds = {}
+        for v in run.violations:
+            kinds[v['kind']] = kinds.get(v['kind'], 0) + 1
+        dbg('violation kinds: %s' % sorted(kinds.items()))
     tb = ["Coq 8.16.1 kernel; vm_compute for Examples",
           "axioms under Print Assumptions: " + (", ".join(sorted(axioms)) or "none (Closed under the global context)"),
           "extraction: ExtrOcamlBasic only; OCaml 4.13.1; ocaml/drv_c07.ml (parser of named value trees)",
